@@ -1,6 +1,6 @@
 From Coq Require Import List Arith ZArith Bool.
 Import ListNotations.
-From PF Require Import Arr Net Rank Glue.
+From PF Require Import Arr Net Rank Stream GenExtra Glue.
 Open Scope Z_scope.
 
 Definition mask_opt (has : Z) (m : list Z) : option (list bool) := if has =? 0 then None else Some (bs m).
@@ -16,4 +16,9 @@ Definition run_c03 (k : Z) (args : list (list Z)) : list (list Z) :=
   else if k =? 307 then [upstream_count ds (mask_opt (argz 1 args) (arg 2 args))]
   else if k =? 308 then [[zb (check_topo ds (ns (arg 1 args))); zb (check_complete ds (ns (arg 1 args)))]]
   else if k =? 309 then [[zb (check_topo ds (ns (arg 1 args)))]]
+  (* core.inflow_idxs / outflow_idxs (args ds, order, region flags), headwater_indices / confluence_indices (args ds, has-mask, mask) *)
+  else if k =? 310 then [zs (inflow_idxs ds (ns (arg 1 args)) (bs (arg 2 args)))]
+  else if k =? 311 then [zs (outflow_idxs ds (ns (arg 1 args)) (bs (arg 2 args)))]
+  else if k =? 312 then [zs (headwater_indices ds (mask_opt (argz 1 args) (arg 2 args)))]
+  else if k =? 313 then [zs (confluence_indices ds (mask_opt (argz 1 args) (arg 2 args)))]
   else [[-999]].
